@@ -1136,6 +1136,18 @@ fn append_compiled_clause(
                 .opt_arg_index_key
                 .switch_on_term_loc()
             {
+                Some(index_loc) if skeleton.core.is_dynamic => {
+                    // the leading clauses of the subsequence may have been retracted
+                    // (they are no longer in the skeleton): locate the outer choice
+                    // instruction through the indexing code, as prepend_compiled_clause does.
+                    let outer_choice_loc = find_dynamic_outer_choice_instr(code, index_loc);
+
+                    if lower_bound == 0 {
+                        code_ptr_opt = Some(outer_choice_loc);
+                    }
+
+                    find_outer_choice_instr(code, outer_choice_loc)
+                }
                 Some(_) => {
                     if lower_bound == 0 {
                         code_ptr_opt = Some(skeleton.clauses[lower_bound].clause_start - 2);
